@@ -359,3 +359,57 @@ func callsNamed(g *ssa.Function, name string) bool {
 	})
 	return found
 }
+
+// opGroup: f together with the unexported functions of its package that exist
+// only to carry part of f's job: reachable from f through static calls and called
+// from nowhere outside the group. (The recursive walks and shared primitives have
+// other callers and stay out.) Rules that anchor on "what F does" look at the
+// group, so that moving a stretch of F into a helper does not hide it.
+func opGroup(r *engine.Run, f *ssa.Function) []*ssa.Function {
+	if f == nil {
+		return nil
+	}
+	cg := r.P.RepoCG()
+	in := map[*ssa.Function]bool{f: true}
+	out := []*ssa.Function{f}
+	for changed := true; changed; {
+		changed = false
+		for _, g := range append([]*ssa.Function{}, out...) {
+			for _, e := range cg.Out[g] {
+				h := e.Callee
+				if h == nil || in[h] || h.Pkg != f.Pkg || len(h.Blocks) == 0 || h.Parent() != nil {
+					continue
+				}
+				if h.Object() == nil || h.Object().Exported() {
+					continue
+				}
+				if ci, isCall := e.Site.(ssa.CallInstruction); !isCall || ci.Common().StaticCallee() != h {
+					continue
+				}
+				only := true
+				for _, e2 := range cg.In[h] {
+					if !in[engine.TopFunc(e2.Caller)] && !in[e2.Caller] {
+						only = false
+					}
+				}
+				if only {
+					in[h] = true
+					out = append(out, h)
+					r.Touch(h)
+					changed = true
+				}
+			}
+		}
+	}
+	return out
+}
+
+// inGroup reports whether g belongs to the group.
+func inGroup(group []*ssa.Function, g *ssa.Function) bool {
+	for _, x := range group {
+		if x == g {
+			return true
+		}
+	}
+	return false
+}
